@@ -54,7 +54,7 @@ class Obligation:
 # units of the generated Lean files (translator/py2lean.py) that each property's model and theorems use
 _FILE = ["TDims", "TComposed", "TVersions", "TVlr"]
 REQUIRED_UNITS = {
-    "C01": _FILE, "C02": ["TDims", "TComposed", "TVersions", "TVlr", "TExtra", "TGeMasks"], "C03": _FILE, "C04": _FILE,
+    "C01": _FILE, "C02": ["TDims", "TComposed", "TVersions", "TVlr", "TExtra", "TGeMasks"], "C03": _FILE, "C04": _FILE + ["FormatEq"],
     "C05": _FILE + ["Reader"], "C06": _FILE, "C07": ["TVersions", "TVlr", "Dims"], "C08": ["TVlr", "TExtra"],
     "C09": ["TDims", "TComposed"], "C10": ["TDims", "TComposed", "Views"], "C11": [], "C12": ["TDims", "TComposed", "TVersions", "Dims"],
     "C13": ["TDims", "TExtra"], "C14": ["Compression", "Selection"], "C15": ["Copc", "TCopc"], "C16": [], "C17": [], "C18": [],
@@ -62,7 +62,7 @@ REQUIRED_UNITS = {
 }
 
 
-FUNCTION_UNITS = {"GE", "Compression", "Dims", "Copc", "Reader", "Views", "Order", "Selection"}
+FUNCTION_UNITS = {"GE", "Compression", "Dims", "Copc", "Reader", "Views", "Order", "Selection", "FormatEq"}
 
 
 class Check:
